@@ -59,6 +59,7 @@ PREMISES = {
         ("C16", ["C16.d", "C16.f"], "the index divides by State.total_balance, which must move with every holder balance (else the shares do not add up to the pool)"),
     ],
     "C19": [
+        ("C03", ["C03.a"], "the stSei rate rises by exactly re-bonded amount over (stSei supply + pending requests): the rate formula, including its zero guards"),
         ("C17", ["C17.b", "C17.c", "C17.d", "C17.j"], "the rewards are split between the pools minus the keeper fee, the whole remainder is forwarded and the bSei holders' index "
                                                "is updated after their share arrived"),
         ("C04", ["C04.a"], "the stSei share is re-delegated raising the stSei rate while minting nothing"),
